@@ -10,6 +10,7 @@
 
 mod exec;
 mod fam_a;
+mod fam_b;
 mod fam_c;
 mod interpose;
 mod model;
@@ -74,6 +75,7 @@ pub fn checks() -> Vec<CheckDef> {
     let mut v = Vec::new();
     v.extend(fam_a::checks());
     v.extend(fam_c::checks());
+    v.extend(fam_b::checks());
     v
 }
 
